@@ -546,3 +546,199 @@ Corollary mulch_off_inert' par p st th et0 infl rain irr gs f' q' :
 Proof.
   intros H. rewrite <- (ep_with_mulch_id par) at 1. rewrite H. apply mulch_off_inert.
 Qed.
+
+(* ------------------------------------------------------------------------------------------------ *)
+(** * Witnesses: a concrete run in which stage 2 over-runs the evaporation layer
+
+   Three 0.1 m compartments (th_dry 0.1, th_wp 0.2, th_fc 0.3, th_s 0.5), EvapZmin = EvapZmax = 0.15 m, REW = 29 mm
+   (more than the 0.15 m layer holds between air-dry and field capacity: 30 mm), one sub-daily step, ET0 = 10 mm,
+   th = [0.12; 0.10; 0.50].  The layer offers 2 mm; the loop goes on to the third compartment (index comp_sto),
+   whose factor is 1 - (0.3 - 0.15)/0.1 = -0.5: AvW = -20 mm is "extracted", i.e. 20 mm are ADDED to it
+   (th 0.5 -> 0.7 > th_s) and EsAct becomes 2 - 20 = -18 mm.  Replayed on the Python function: Es = -18.0, th[2] = 0.7. *)
+Ltac rdec1 := match goal with
+  | |- context [Rltb ?a ?b] => no_if a; no_if b; first [rewrite (Rltb_true a b) by lra | rewrite (Rltb_false a b) by lra]
+  | |- context [Rleb ?a ?b] => no_if a; no_if b; first [rewrite (Rleb_true a b) by lra | rewrite (Rleb_false a b) by lra]
+  end.
+Ltac rdec := repeat rdec1.
+
+Definition wc (dzsum : R) : Comp R :=
+  {| c_dz := 1/10; c_dzsum := dzsum; c_zmid := dzsum - 1/20; c_layer := 1; c_th_dry := 1/10; c_th_wp := 2/10; c_th_fc := 3/10;
+     c_th_s := 5/10; c_ksat := 100; c_tau := 1/2; c_pen := 100; c_acr := 0; c_bcr := 0 |}.
+Definition wp3 : list (Comp R) := [wc (1/10); wc (2/10); wc (3/10)].
+Definition wpar : EvPar :=
+  {| ep_steps := 1; ep_simoff := true; ep_zmin := 15/100; ep_zmax := 15/100; ep_rew := 29; ep_kex := 1; ep_fwcc := 50;
+     ep_fwrelexp := 4/10; ep_fevap := 4; ep_caltype := 1; ep_senescence := 100; ep_irrmethod := 0; ep_wetsurf := 100;
+     ep_mulches := false; ep_fmulch := 0; ep_mulchpct := 0 |}.
+Definition wst : EvState :=
+  {| es_tsc := 5; es_dap := 0; es_wsurf := 0; es_evapz := 15/100; es_stage2 := true; es_delayedcds := 0; es_gddcum := 0;
+     es_delayedgdds := 0; es_ccxw := 0; es_ccadj := 0; es_ccxact := 0; es_cc := 0; es_prematsenes := false; es_surf := 0;
+     es_wstage2 := 0 |}.
+Definition wth : list R := [12/100; 1/10; 5/10].
+
+Lemma wit_stage1 th : exists m, ev_stage1 wpar wp3 wst th 10 0 0 0 false = Some m /\
+  em_espot m = 10 /\ em_surf m = 0 /\ em_wstage2 m = 0 /\ em_evapz m = 15/100 /\ em_th m = th /\ em_es m = 0 /\ em_te m = 10.
+Proof.
+  unfold ev_stage1, ev_espot_base, ev_espot_adj, ev_pond_es, ev_pond_surf, ev_pond_all, ev_pond_part, pmin. cbn. rnum.
+  rdec. cbn. rdec. cbn. rdec. cbn.
+  eexists; split; [reflexivity|]. cbn. repeat split; lra.
+Qed.
+
+Lemma ev_kr_clamp f w : 0 < f -> 1 < w -> ev_kr f w = 1.
+Proof.
+  intros Hf Hw. unfold ev_kr. rnum.
+  assert (H1 : 1 < exp f) by (apply exp_gt_1; auto).
+  assert (H2 : exp f < exp (f * w)).
+  { apply exp_increasing. replace f with (f * 1) at 1 by ring. apply Rmult_lt_compat_l; auto. }
+  rewrite Rltb_true; auto.
+  apply Rmult_lt_reg_r with (exp f - 1); [lra|]. unfold Rdiv. rewrite Rmult_assoc, Rinv_l by lra. lra.
+Qed.
+
+Lemma fac1 : ev_factor (N:=RN) (wc (1/10)) (15/100) = 1.
+Proof. unfold ev_factor. cbn. rnum. rdec. reflexivity. Qed.
+Lemma fac2 : ev_factor (N:=RN) (wc (2/10)) (15/100) = 1/2.
+Proof. unfold ev_factor. cbn. rnum. rdec. lra. Qed.
+Lemma fac3 : ev_factor (N:=RN) (wc (3/10)) (15/100) = -1/2.
+Proof. unfold ev_factor. cbn. rnum. rdec. lra. Qed.
+
+Lemma wit_layer : exists e, evap_layer_water_content (N:=RN) wth (15/100) wp3 = Some e /\
+  el_sat e = 75 /\ el_fc e = 45 /\ el_dry e = 15 /\ el_act e = 17.
+Proof.
+  unfold evap_layer_water_content, ev_count. cbn. rnum. rdec. cbn. rnum.
+  eexists; split; [reflexivity|]. cbn. rnum. rewrite fac1, fac2. rdec. repeat split; lra.
+Qed.
+
+Lemma wit_demand : ev_step_demand (N:=RN) wp3 0 29 (4/10) 4 (15/100) (15/100) (10 / 1) wth (15/100) = Some (15/100, 1 * (10 / 1)).
+Proof.
+  unfold ev_step_demand. destruct wit_layer as (e & -> & Hs & Hf & Hd & Ha).
+  rnum. rewrite (Rltb_false (15/100) (15/100)) by lra.
+  rewrite ev_kr_clamp; [reflexivity|lra|].
+  unfold ev_wrel. rnum. rewrite Hs, Hf, Hd, Ha. lra.
+Qed.
+
+Lemma wit_extract : exists th' ex' es' te',
+  ev_extract (N:=RN) false 3 (15/100) wp3 wth (1 * (10 / 1)) 0 10 = Some (th', ex', es', te') /\ es' = -18 /\ th' = [1/10; 1/10; 7/10].
+Proof.
+  cbn. rnum. rewrite fac1, fac2, fac3. rdec. cbn. rdec. cbn. rdec.
+  do 4 eexists. split; [reflexivity|]. split; [lra|].
+  f_equal; [lra|f_equal; [lra|f_equal; lra]].
+Qed.
+
+Lemma wit_count : Z.to_nat (ev_count (N:=RN) wp3 (15/100) + 2) = 3%nat.
+Proof. unfold ev_count. cbn. rnum. rdec. reflexivity. Qed.
+
+Lemma wit_run : exists o, soil_evaporation wpar wp3 wst wth 10 0 0 0 false = Some o /\
+  eo_espot o = 10 /\ eo_es o = -18 /\ eo_th o = [1/10; 1/10; 7/10].
+Proof.
+  unfold soil_evaporation. destruct (wit_stage1 wth) as (m & -> & Hp & Hs & Hw & Hz & Ht & He & Hte).
+  cbn [ep_steps wpar Z.leb Z.compare Pos.compare]. rnum. rewrite Hte, Hw, Hz, Ht, He.
+  rewrite (Rltb_true 0 10) by lra.
+  cbn [ep_rew ep_fwrelexp ep_fevap ep_zmin ep_zmax wpar Z.to_nat Pos.to_nat Pos.iter_op ev_stage2_loop ev_stage2_step].
+  change (Pos.to_nat 1) with 1%nat. cbn [ev_stage2_loop]. unfold ev_stage2_step. rewrite wit_demand. rewrite wit_count.
+  destruct wit_extract as (th' & ex' & es' & te' & -> & E1 & E2).
+  eexists. split; [reflexivity|]. cbn. repeat split; auto.
+Qed.
+
+Lemma wit_wf : wf_prof wp3.
+Proof. repeat constructor; cbn; lra. Qed.
+Lemma wit_in_bounds : in_bounds wp3 wth.
+Proof. repeat constructor; cbn; lra. Qed.
+Lemma wit_ranges : espot_ranges wpar wst 10.
+Proof. constructor; cbn; lra. Qed.
+
+(* 0 <= Es fails for the faithful model, even on a well-formed profile within bounds with EsPot >= 0 *)
+Theorem es_nonneg_refuted : exists par p st th et0 infl rain irr gs o,
+  wf_prof p /\ in_bounds p th /\ espot_ranges par st et0 /\
+  soil_evaporation par p st th et0 infl rain irr gs = Some o /\ 0 <= eo_espot o /\ eo_es o < 0.
+Proof.
+  destruct wit_run as (o & H & H1 & H2 & H3).
+  exists wpar, wp3, wst, wth, 10, 0, 0, 0, false, o.
+  split; [apply wit_wf|]. split; [apply wit_in_bounds|]. split; [apply wit_ranges|]. split; [exact H|]. split; lra.
+Qed.
+
+(* ... and so does th <= th_s (water is added to the compartment below the evaporation layer) *)
+Theorem evaporation_bounds_refuted : exists par p st th et0 infl rain irr gs o,
+  wf_prof p /\ in_bounds p th /\ espot_ranges par st et0 /\
+  soil_evaporation par p st th et0 infl rain irr gs = Some o /\ ~ in_bounds p (eo_th o) /\ ~ Forall2 Rle (eo_th o) th.
+Proof.
+  destruct wit_run as (o & H & H1 & H2 & H3).
+  exists wpar, wp3, wst, wth, 10, 0, 0, 0, false, o.
+  split; [apply wit_wf|]. split; [apply wit_in_bounds|]. split; [apply wit_ranges|]. split; [exact H|]. split; rewrite H3; intros C.
+  - inversion C as [|? ? ? ? _ C1]; subst. inversion C1 as [|? ? ? ? _ C2]; subst. inversion C2 as [|? ? ? ? C3 _]; subst.
+    cbn in C3. lra.
+  - inversion C as [|? ? ? ? _ C1]; subst. inversion C1 as [|? ? ? ? _ C2]; subst. inversion C2 as [|? ? ? ? C3 _]; subst. lra.
+Qed.
+
+(* the hypotheses of the unconditional theorems are satisfiable on this run *)
+Example es_le_pot_upper_ex : exists o, soil_evaporation wpar wp3 wst wth 10 0 0 0 false = Some o /\ eo_es o <= eo_espot o.
+Proof.
+  destruct wit_run as (o & H & H1 & _). exists o. split; auto. eapply es_le_pot_upper; eauto. lra.
+Qed.
+Example evaporation_balance_ex : exists o, soil_evaporation wpar wp3 wst wth 10 0 0 0 false = Some o /\
+  storage wp3 (eo_th o) + eo_surf o + eo_es o = storage wp3 wth + es_surf wst.
+Proof.
+  destruct wit_run as (o & H & _). exists o. split; auto. eapply evaporation_balance_wf; eauto using wit_wf.
+Qed.
+Example espot_nonneg_ex : exists o, soil_evaporation wpar wp3 wst wth 10 0 0 0 false = Some o /\ 0 <= eo_espot o.
+Proof.
+  destruct wit_run as (o & H & _). exists o. split; auto. eapply espot_nonneg; eauto using wit_ranges.
+Qed.
+
+(* a moist profile on the same field: stage 2 is satisfied by the first compartment, [evap_ok] holds *)
+Definition wth2 : list R := [3/10; 3/10; 5/10].
+
+Lemma wit2_layer : exists e, evap_layer_water_content (N:=RN) wth2 (15/100) wp3 = Some e /\
+  el_sat e = 75 /\ el_fc e = 45 /\ el_dry e = 15 /\ el_act e = 45.
+Proof.
+  unfold evap_layer_water_content, ev_count. cbn. rnum. rdec. cbn. rnum.
+  eexists; split; [reflexivity|]. cbn. rnum. rewrite fac1, fac2. rdec. repeat split; lra.
+Qed.
+
+Lemma wit2_demand : ev_step_demand (N:=RN) wp3 0 29 (4/10) 4 (15/100) (15/100) (10 / 1) wth2 (15/100) = Some (15/100, 1 * (10 / 1)).
+Proof.
+  unfold ev_step_demand. destruct wit2_layer as (e & -> & Hs & Hf & Hd & Ha).
+  rnum. rewrite (Rltb_false (15/100) (15/100)) by lra.
+  rewrite ev_kr_clamp; [reflexivity|lra|].
+  unfold ev_wrel. rnum. rewrite Hs, Hf, Hd, Ha. lra.
+Qed.
+
+Lemma wit2_extract : exists th' ex' es' te',
+  ev_extract (N:=RN) false 3 (15/100) wp3 wth2 (1 * (10 / 1)) 0 10 = Some (th', ex', es', te') /\ es' = 10.
+Proof.
+  cbn. rnum. rewrite fac1. rdec. do 4 eexists. split; [reflexivity|]. lra.
+Qed.
+
+Lemma wit2_run : exists o, soil_evaporation wpar wp3 wst wth2 10 0 0 0 false = Some o /\ eo_espot o = 10 /\ eo_es o = 10.
+Proof.
+  unfold soil_evaporation. destruct (wit_stage1 wth2) as (m & -> & Hp & Hs & Hw & Hz & Ht & He & Hte).
+  cbn [ep_steps wpar Z.leb Z.compare Pos.compare]. rnum. rewrite Hte, Hw, Hz, Ht, He.
+  rewrite (Rltb_true 0 10) by lra.
+  cbn [ep_rew ep_fwrelexp ep_fevap ep_zmin ep_zmax wpar Z.to_nat Pos.to_nat Pos.iter_op ev_stage2_loop ev_stage2_step].
+  change (Pos.to_nat 1) with 1%nat. cbn [ev_stage2_loop]. unfold ev_stage2_step. rewrite wit2_demand. rewrite wit_count.
+  destruct wit2_extract as (th' & ex' & es' & te' & -> & E1).
+  eexists. split; [reflexivity|]. cbn. repeat split; auto.
+Qed.
+
+Lemma wit2_ok : evap_ok wpar wp3 wst wth2 10 0 0 0 false.
+Proof.
+  unfold evap_ok. destruct (wit_stage1 wth2) as (m & -> & Hp & Hs & Hw & Hz & Ht & He & Hte). intros _.
+  rewrite Hte, Hw, Hz, Ht, He. cbn [ep_steps ep_rew ep_fwrelexp ep_fevap ep_zmin ep_zmax wpar Z.to_nat].
+  change (Pos.to_nat 1) with 1%nat. cbn [loop_ok]. split.
+  - unfold step_ok. rnum. rewrite wit2_demand, wit_count. cbn [ext_ok wp3 wth2]. intros _. cbv zeta. rnum. rewrite fac1.
+    cbn. split; [lra|]. intros C. exfalso. lra.
+  - destruct (ev_stage2_step _ _ _ _ _ _ _ _ _); exact I.
+Qed.
+
+Lemma wit2_in_bounds : in_bounds wp3 wth2.
+Proof. repeat constructor; cbn; lra. Qed.
+
+Example es_le_pot_ex : exists o, soil_evaporation wpar wp3 wst wth2 10 0 0 0 false = Some o /\ 0 <= eo_es o <= eo_espot o.
+Proof.
+  destruct wit2_run as (o & H & H1 & _). exists o. split; auto.
+  eapply es_le_pot; eauto using wit_wf, wit2_in_bounds, wit2_ok. lra.
+Qed.
+Example evaporation_bounds_ex : exists o, soil_evaporation wpar wp3 wst wth2 10 0 0 0 false = Some o /\
+  in_bounds wp3 (eo_th o) /\ Forall2 Rle (eo_th o) wth2.
+Proof.
+  destruct wit2_run as (o & H & _). exists o. split; auto.
+  eapply evaporation_bounds; eauto using wit_wf, wit2_in_bounds, wit2_ok.
+Qed.
